@@ -20,7 +20,8 @@ NT_RULE = ('state = (T, P, n) log-uniform in 50-3000 K, 1e-3-1e3 bar, 1e-3-1e3 m
            'sub-/super-critical isotherms; non-trivial = sub-critical state with three real roots or a '
            'liquid-root evaluation; distinct = distinct canonical JSON of the case')
 REQUIRED_ORACLES = ['Z1', 'Z2', 'Z2root', 'Z3', 'Z4', 'Z5']
-REQUIRED_CLASSES = ['roots:3', 'roots:1', 'T<Tc', 'T>Tc', 'root:liquid', 'root:gas', 'from_critical', 'state:dense_supercritical', 'state:light_gas_hot', 'state:critical_exact']
+REQUIRED_CLASSES = ['roots:3', 'roots:1', 'T<Tc', 'T>Tc', 'root:liquid', 'root:gas', 'from_critical', 'state:dense_supercritical', 'state:light_gas_hot', 'state:critical_exact', 'state:near_critical', 'state:near_critical<=1e-5',
+                    'call:positional', 'hist:nearby_state:abs', 'hist:nearby_state:rel']
 REQUIRED_PROBES = ['vanDerWaalsEOS.get_Vm', 'IdealGasEOS.get_V']
 ASSUMPTIONS = ['back-substitution tolerance = 1e-10 * |dX/dlnV| + 1e-11*|X|: the cubic solver returns a '
                'volume with relative error <~1e-12, and the map V->P is ill-conditioned on the liquid root '
@@ -50,6 +51,10 @@ def directed(tier):
     D.append({'kind': 'vdw', 'a': 0.3640, 'b': 4.267e-5, 'T': 350.0, 'P': 300.0, 'n': 0.5})
     D.append({'kind': 'critical_exact', 'a': 0.3640, 'b': 4.267e-5, 'ns': [1.0, 0.02, 2.5, 250.0]})
     D.append({'kind': 'critical_exact', 'a': 0.00346, 'b': 2.38e-5, 'ns': [0.5, 7.0]})
+    for sT, sP, d in ((1, -1, 8e-6), (-1, 1, 8e-6), (1, 1, 3e-6), (-1, -1, 1e-6), (1, -1, 1e-4), (-1, 1, 1e-8)):
+        a_, b_ = 0.3640, 4.267e-5
+        D.append({'kind': 'vdw', 'a': a_, 'b': b_, 'T': 8 * a_ / (27 * b_ * R_SI) * (1 + sT * d),
+                  'P': a_ / (27 * b_ * b_) / 1e5 * (1 + sP * d), 'n': 1.5})
     D.append({'kind': 'ideal', 'T': 298.15, 'P': 1.0, 'n': 1.0})
     D.append({'kind': 'ideal', 'T': 3000.0, 'P': 1e-3, 'n': 1e3})
     D.append({'kind': 'defaults'})
@@ -69,7 +74,15 @@ def generate(rng, tier):
         Tc, Pc = 8 * a / (27 * b * R_SI), a / (27 * b * b) / 1e5
     else:
         Tc, Pc = _lu(rng, 5, 1000), _lu(rng, 1, 300)
-    mode = rng.choice(['any', 'sub3', 'sub', 'super', 'super_near', 'lightgas'])
+    mode = rng.choice(['any', 'sub3', 'sub', 'super', 'super_near', 'lightgas', 'near_critical'])
+    if mode == 'near_critical':
+        # a neighbourhood of the critical point, NOT the point itself: both T and P within 1e-4 .. 1e-9
+        # (relative) of the critical constants, on either side (full double precision, no rounding of the spec)
+        T = Tc * (1.0 + rng.choice([-1, 1]) * rng.choice([1e-4, 8e-6, 3e-6, 1e-6, 1e-7, 1e-9]))
+        P = Pc * (1.0 + rng.choice([-1, 1]) * rng.choice([1e-4, 8e-6, 3e-6, 1e-6, 1e-7, 1e-9]))
+        if not (50.0 <= T <= 3000.0 and 1e-3 <= P <= 1e3):
+            mode = 'any'
+            T, P = _lu(rng, 50, 3000), _lu(rng, 1e-3, 1e3)
     if mode == 'lightgas' and k == 'vdw':
         # He / H2 / Ne-like parameters far above Tc (the liquid-root request then has a single real root)
         a, b = _lu(rng, 0.003, 0.03), _lu(rng, 1.5e-5, 3e-5)
@@ -246,6 +259,11 @@ def _vdw(spec, ctx):
         ctx.cls('state:dense_supercritical')
     if a <= 0.03 and T >= 3 * Tc_ref:
         ctx.cls('state:light_gas_hot')
+    dc = max(abs(T / Tc_ref - 1.0), abs(P / Pc_ref - 1.0))
+    if 0 < dc <= 2e-4:
+        ctx.cls('state:near_critical')
+        if dc <= 1.2e-5:
+            ctx.cls('state:near_critical<=1e-5')
     P_SI = P * 1e5
     picked = {}
     from pmutt import constants as c
@@ -298,6 +316,50 @@ def _vdw(spec, ctx):
         V3 = ctx.call('Z3', m, e.get_V, T=T, P=P, n=3 * n, gas_phase=gas)
         if V3 is not core.NOVALUE:
             ctx.close('Z3', V3 / V, 3.0, 1e-12, m)
+    # --- the documented positional call forms give what the keyword forms give
+    #     get_Vm(T, P, gas_phase) get_V(T, P, n, gas_phase) get_P(T, V, n) get_T(V, P, n) get_n(V, P, T, gas_phase)
+    if True in picked:
+        ctx.cls('call:positional')
+        Vg = picked[True] * n
+        mp = {'eos': 'vdw', 'call': 'positional'}
+        for step, pos, kw in (('get_Vm', (T, P, True), dict(T=T, P=P, gas_phase=True)),
+                              ('get_Vm', (T, P, False), dict(T=T, P=P, gas_phase=False)),
+                              ('get_V', (T, P, n, False), dict(T=T, P=P, n=n, gas_phase=False)),
+                              ('get_P', (T, Vg, n), dict(T=T, V=Vg, n=n)),
+                              ('get_T', (Vg, P, n), dict(V=Vg, P=P, n=n)),
+                              ('get_n', (Vg, P, T, True), dict(V=Vg, P=P, T=T, gas_phase=True))):
+            gp = ctx.call('Z2', dict(mp, step=step), getattr(e, step), *pos)
+            gk = ctx.call('Z2', dict(mp, step=step), getattr(e, step), **kw)
+            if core.NOVALUE not in (gp, gk):
+                ctx.check('Z2', float(gp) == float(gk), dict(mp, step=step), positional=float(gp), keyword=float(gk))
+    # --- history: a sweep of NEARBY states on the same object (finite-difference steps, fine grids): every
+    #     answer must be a root for ITS state (nothing reused from the neighbour)
+    if True in picked:
+        ci = ctx.case_index or 0
+        steps = [('rel', [1e-4, 1e-7, 1e-10, -1e-6][ci % 4]), ('abs', [4e-7, -4e-7, 1e-9, 3e-8][(ci // 4) % 4])]
+        for kind_, d in steps:
+            for var in ('P', 'T'):
+                T2 = T * (1 + d) if (var == 'T' and kind_ == 'rel') else (T + d if var == 'T' else T)
+                P2 = P * (1 + d) if (var == 'P' and kind_ == 'rel') else (P + d if var == 'P' else P)
+                if not (P2 > 0 and T2 > 0) or (T2 == T and P2 == P):
+                    continue
+                ctx.cls('hist:nearby_state:' + kind_)
+                for gas in (True, False):
+                    mh = {'eos': 'vdw', 'root': 'gas' if gas else 'liquid', 'history': 'nearby_state', 'varied': var,
+                          'step': kind_}
+                    v2 = ctx.call('Z2', dict(mh, step2='get_Vm'), e.get_Vm, T=T2, P=P2, gas_phase=gas)
+                    if v2 is core.NOVALUE:
+                        continue
+                    v2 = float(v2)
+                    if not v2 > b:
+                        ctx.fail('Z2root', dict(mh, what='V<=b'), Vm=v2, b=b)
+                        continue
+                    Rp = c.R('J/mol/K')      # the library's own R (its value is checked by Z2 'textbook' and C12)
+                    P_back = (Rp * T2 / (v2 - b) - a / v2 ** 2) / 1e5
+                    cond_ = abs(-Rp * T2 * v2 / (v2 - b) ** 2 + 2 * a / v2 ** 2) / 1e5
+                    tol2 = 1e-10 * cond_ + 1e-11 * P2
+                    ctx.check('Z2', abs(P_back - P2) <= tol2, mh, P=P2, T=T2, back=P_back, tol=tol2, Vm=v2,
+                              first_state={'T': T, 'P': P})
     # --- history: the user re-assigns the public parameters of a live object and solves the same state again
     #     (nothing may be remembered from the first solve): compare with a fresh object
     if True in picked:
